@@ -124,6 +124,8 @@ def r_cmd(c, ind):
             return "set %so pipefail" % ("-" if c[2] else "+")
         if c[1] == "i":
             return "shopt -%s inherit_errexit" % ("s" if c[2] else "u")
+        if c[1] == "l":
+            return "shopt -%s lastpipe" % ("s" if c[2] else "u")
         raise ValueError(c[1])
     if k == "Fa":
         return {"r": "RO=1 true", "n": "nosuchcmd_zz 2>/dev/null", "d": "true < /nonexistent_zz/f 2>/dev/null",
@@ -306,7 +308,11 @@ class Gen:
             return self.call(ncalls)
         if "pipe" in self.feats and r.random() < 0.4:
             n = r.choice([1, 1, 2, 3])
-            last = self.cmd(depth - 1, 0, False, ncalls)
+            # (no option toggles in the last stage: under lastpipe it runs in the current shell and brush reads
+            #  pipefail after the stages have run, bash before — a corner nobody relies on)
+            self.in_bang += 1
+            last = self.cmd(depth - 1, 0, False, [f for f in ncalls if not self.func_opts.get(f)])
+            self.in_bang -= 1
             if last[0] == "Ev":
                 last = ("Gr", last)   # bash: errexit inside `… | eval` leaves with status 1, not the failing status (quirk)
             return ("Pi", [r.choice([0, 0, 1, 3]) for _ in range(n)], last)
@@ -336,7 +342,7 @@ class Gen:
         # own wording), so option toggles are never generated under `!`
         if "opts" in self.feats and self.in_bang == 0 and r.random() < 0.12:
             self.has_opts = True
-            o = "e" if "opts2" not in self.feats else r.choice(["e", "e", "p", "i"])
+            o = "e" if "opts2" not in self.feats else r.choice(["e", "e", "p", "i", "l"])
             return ("O", o, r.random() < 0.7)
         if "faults" in self.feats and r.random() < 0.3:
             if ncalls and r.random() < 0.3:
